@@ -12,8 +12,14 @@ variable (S2F : List Char → Except PyErr Nat)
 
 /-! ## Gen obligations: what the hand-written model assumes about the current source -/
 
-/-- misc replies are routed through the FIFO of pending requests by one permanent port callback (fix D5) -/
-theorem gen_misc_routing : Gen.C04.miscRouting = 2 := by decide
+/-- misc replies: one self-removing port callback per request which compares the command byte AND the 16-bit parameter
+id of the reply (fix D5); the dispatcher iterates over a snapshot of its callback list (fix D7) -/
+theorem gen_misc_routing : Gen.C04.miscRouting = 1 ∧ Gen.C04.dispatchSnapshot = true ∧
+    Gen.C04.getDefaultMatch = ["pk.channel == MISC_CHANNEL", "pk.data[0] == MISC_GET_DEFAULT_VALUE", "struct.unpack('<H', pk.data[1:3])[0] == element.ident"] ∧
+    Gen.C04.getStateMatch = ["pk.channel == MISC_CHANNEL", "pk.data[0] == MISC_PERSISTENT_GET_STATE", "struct.unpack('<H', pk.data[1:3])[0] == element.ident"] ∧
+    Gen.C04.storeMatch = ["pk.channel == MISC_CHANNEL", "pk.data[0] == MISC_PERSISTENT_STORE", "struct.unpack('<H', pk.data[1:3])[0] == element.ident"] ∧
+    Gen.C04.clearMatch = ["pk.channel == MISC_CHANNEL", "pk.data[0] == MISC_PERSISTENT_CLEAR", "struct.unpack('<H', pk.data[1:3])[0] == element.ident"] :=
+  ⟨rfl, rfl, rfl, rfl, rfl, rfl⟩
 /-- channels and misc commands are those of the firmware protocol (DESIGN Appendix D) -/
 theorem gen_channels : Gen.C04.TOC_CHANNEL = 0 ∧ Gen.C04.READ_CHANNEL = 1 ∧ Gen.C04.WRITE_CHANNEL = 2 ∧ Gen.C04.MISC_CHANNEL = 3 := by
   decide
@@ -44,7 +50,7 @@ theorem set_value_wire_int (h : Host) (cn : List Nat) (e : Elem) (t : NumType) (
     (hinit : h.initialized = true) (hl : elemByName h.toc cn = some e) (hrw : e.ro = false)
     (ht : e.tcode = t.code) (hint : t.isFloat = false) (hid : e.ident < 256 ^ idWidth h.useV2) (hv : t.InRange v) :
     let p : Pkt := { chan := 2, data := leBytes (idWidth h.useV2) e.ident ++ encodeInt t.width v }
-    setValue S2F h cn (.int v) inCb = (enqueue h p, [.enq p]) := by
+    setValue S2F h cn (.int v) inCb = (enqueue h p, [.enq p none]) := by
   intro p
   have hp : setValuePkt S2F h cn (.int v) = .ok p := by
     rw [setValuePkt_elem S2F h cn e _ hl hrw hid, Elem.fmt_eq, ht, valueBytes_int S2F t hint]
@@ -93,7 +99,7 @@ def exHost : Host := { Host.init exToc true with initialized := true }
 
 example : elemByName exHost.toc [1, 2] = some ⟨1, 1, 2, 0x01, false, false⟩ ∧ NumType.i16.InRange (-2) := by decide
 example : setValue (fun _ => .error .other) exHost [1, 2] (.int (-2)) false =
-    (enqueue exHost ⟨2, [1, 0, 0xfe, 0xff]⟩, [.enq ⟨2, [1, 0, 0xfe, 0xff]⟩]) := by decide
+    (enqueue exHost ⟨2, [1, 0, 0xfe, 0xff]⟩, [.enq ⟨2, [1, 0, 0xfe, 0xff]⟩ none]) := by decide
 example : setValue (fun _ => .error .other) exHost [1, 2] (.int 32768) false = (exHost, [.raised .structError]) := by decide
 example : setValue (fun _ => .error .other) exHost [2, 1] (.int 1) false = (exHost, [.raised .attributeError]) := by decide
 example : setValue (fun _ => .error .other) exHost [7] (.int 1) false = (exHost, [.raised .keyError]) := by decide
